@@ -388,7 +388,7 @@ class _DataFiles:
                 try:
                     while True:
                         result.append(pickle.load(input_file))
-                except EOFError:
+                except (EOFError, pickle.UnpicklingError):
                     pass
                 if len(result) == 1:
                     return result[0]
